@@ -27,7 +27,7 @@ package vecnet
 //@   requires[C17] @buffers-are-distinct-arrays forall(a, off(bufs), off(bufs) + len(bufs), forall(b, off(bufs), off(bufs) + len(bufs), a != b ==> arr(rawelem(bufs, a)) != arr(rawelem(bufs, b))))
 //@   modifies arrays(byte), arrays([]byte), $consumed, $ncalls, $n.*
 //@   ensures[C17,C02] @counts-what-it-consumed result0 >= 0 && (result1 == nil ==> ghost("$consumed", int) == old(ghost("$consumed", int)) + int(result0))
-//@   ensures[C17,C02] @success-means-every-buffer-is-full result1 == nil ==> int(result0) == old(sumlens(bufs))
+//@   ensures[C02,C17,C18] @success-means-every-buffer-is-full result1 == nil ==> int(result0) == old(sumlens(bufs))
 //@   ensures[C17] @bytes-land-in-stream-order !implements(r, syscall.Conn) && result1 == nil ==> forall(i, 0, len(bufs), forall(k, off(bufs[i]), off(bufs[i]) + len(bufs[i]), rawelem(bufs[i], k) == streamAt(old(ghost("$consumed", int)) + sumlens(bufs, i) + (k - off(bufs[i])))))
 //@   loop 0 invariant[C17,C02] 0 <= rangeindex + 1 && rangeindex + 1 <= len(bufs) && int(total) == sumlens(bufs, rangeindex + 1) && ghost("$consumed", int) == old(ghost("$consumed", int)) + int(total) && total >= 0 && !implements(r, syscall.Conn) && sumsnoc(bufs, rangeindex + 1)
 //@   loop 0 invariant[C17] forall_lastsplit(i, 0, rangeindex + 1, forall(k, off(bufs[i]), off(bufs[i]) + len(bufs[i]), rawelem(bufs[i], k) == streamAt(old(ghost("$consumed", int)) + sumlens(bufs, i) + (k - off(bufs[i])))))
@@ -56,7 +56,7 @@ package vecnet
 //@   use fits
 //@   modifies arrays(byte), arrays([]byte), $consumed
 //@   ensures[C17,C02] @counts-what-it-consumed result0 >= 0 && int(result0) <= old(sumlens(bufs0)) && (result1 == nil ==> ghost("$consumed", int) == old(ghost("$consumed", int)) + int(result0))
-//@   ensures[C17,C02] @success-means-every-buffer-is-full result1 == nil ==> int(result0) == old(sumlens(bufs0))
+//@   ensures[C02,C17,C18] @success-means-every-buffer-is-full result1 == nil ==> int(result0) == old(sumlens(bufs0))
 //@   assumed_ensures[C17] @bytes-land-in-stream-order result1 == nil ==> forall(i, 0, len(bufs0), forall(j, 0, len(old(bufs0[i])), old(bufs0[i])[j] == streamAt(old(ghost("$consumed", int)) + old(sumlens(bufs0, i)) + j)))
 //@   loop 0 invariant[C17,C02] 0 <= rangeindex + 1 && rangeindex + 1 <= len(bufs) && int(length) == sumlens(bufs, rangeindex + 1) && length >= 0 && sumsnoc(bufs, rangeindex + 1)
 //@   loop 1 invariant[C17,C02] 0 <= n && int(n) + sumlens(bufs) == int(length) && int(length) == old(sumlens(bufs0)) && ghost("$consumed", int) == old(ghost("$consumed", int)) + int(n) && len(bufs) <= 1000000 && sumcons(bufs)
